@@ -13,7 +13,7 @@
 import Optyx.Syntax
 import Optyx.Generated.Tables
 
-namespace Optyx.Py
+namespace Optyx.Py.LPP
 
 structure LPData (K : Type) where
   c      : List K
@@ -86,4 +86,4 @@ def solveLP [Neg K] [Add K] (linprog : LinprogArgs K → LinprogResult K) (d : L
     (method : Option String) : LPSolution K :=
   lpPost d (linprog (lpArgs d method))
 
-end Optyx.Py
+end Optyx.Py.LPP
